@@ -27,6 +27,11 @@ pub struct Case {
     pub inserts: Vec<(u16, Tau)>,
     /// number of parts for the i-th multi-line agent insertion (1 = not split)
     pub splits: Vec<u8>,
+    /// systematic transformations on top of `inserts`: bit 0 = an explicit human checkpoint
+    /// after every human edit, bit 1 = every agent checkpoint repeated once, bit 2 = a
+    /// read-only command after every edit
+    #[serde(default)]
+    pub dense: u8,
 }
 
 fn edit() -> impl Strategy<Value = Edit> + Clone {
@@ -40,7 +45,18 @@ fn edit() -> impl Strategy<Value = Edit> + Clone {
         1 => any::<u16>().prop_map(|pos| Edit::TokenPrepend { pos }),
         2 => (any::<u16>(), 1u8..5, 0u8..5).prop_map(|(pos, count, how)| Edit::Reindent { pos, count, how }),
         1 => (any::<u16>(), 1u8..4, 0u8..3).prop_map(|(pos, count, how)| Edit::TrailingWs { pos, count, how }),
+        2 => Just(Edit::DeleteAgentLines),
     ]
+}
+
+/// 1-5 edits (people and agents) followed, usually, by a commit
+fn long_work_block() -> impl Strategy<Value = Vec<HOp>> {
+    (proptest::collection::vec(edit_op(edit()), 1..=5), proptest::bool::weighted(0.85)).prop_map(|(mut v, commit)| {
+        if commit {
+            v.push(HOp::Commit);
+        }
+        v
+    })
 }
 
 fn tau() -> impl Strategy<Value = Tau> {
@@ -56,7 +72,10 @@ pub fn strategy() -> impl Strategy<Value = Case> {
         proptest::collection::vec(file_init(1, 10), 1..=2),
         proptest::collection::vec(
             prop_oneof![
-                8 => work_block(edit()),
+                5 => work_block(edit()),
+                4 => long_work_block(),
+                // (without its own explicit checkpoints here: tau adds them)
+                3 => reject_and_rewrite_block().prop_map(|v| v.into_iter().filter(|o| !matches!(o, HOp::HumanCheckpoint { .. })).collect::<Vec<_>>()),
                 2 => (1u8..7).prop_map(|mask| vec![HOp::CommitFiles { mask }]),
                 1 => (0u8..3, 1u16..0xffff).prop_map(|(file, mask)| vec![HOp::CommitHunks { file, mask }]),
             ],
@@ -64,10 +83,11 @@ pub fn strategy() -> impl Strategy<Value = Case> {
         ),
         proptest::collection::vec((any::<u16>(), tau()), 1..=6),
         proptest::collection::vec(1u8..5, 0..6),
+        prop_oneof![3 => Just(0u8), 3 => Just(1u8), 1 => Just(2u8), 1 => Just(3u8), 1 => Just(4u8), 1 => Just(7u8)],
     )
-        .prop_map(|(files, blocks, inserts, splits)| {
+        .prop_map(|(files, blocks, inserts, splits, dense)| {
             let ops: Vec<HOp> = blocks.into_iter().flatten().collect();
-            Case { history: HCase { files, ops }, inserts, splits }
+            Case { history: HCase { files, ops }, inserts, splits, dense }
         })
 }
 
@@ -128,6 +148,29 @@ fn transform(case: &Case) -> (Vec<HOp>, bool, bool) {
             }
             other => out.push(other.clone()),
         }
+    }
+    // systematic redundant steps
+    if case.dense != 0 {
+        let mut dense_out: Vec<HOp> = Vec::new();
+        for op in out.into_iter() {
+            let e = match &op {
+                HOp::Edit { actor, file, .. } => Some((*actor, *file)),
+                _ => None,
+            };
+            dense_out.push(op);
+            if let Some((actor, file)) = e {
+                if !actor.is_ai() && case.dense & 1 != 0 {
+                    dense_out.push(HOp::HumanCheckpoint { file });
+                }
+                if actor.is_ai() && case.dense & 2 != 0 {
+                    dense_out.push(HOp::RepeatCheckpoint { times: 1 });
+                }
+                if case.dense & 4 != 0 {
+                    dense_out.push(HOp::ReadOnly { which: file });
+                }
+            }
+        }
+        out = dense_out;
     }
     // insert the redundant steps (positions are relative to the transformed list)
     let mut ins: Vec<(usize, HOp)> = case
@@ -234,7 +277,10 @@ pub fn run(case: &Case) -> CaseReport {
     if between {
         rep.class("step-between-ai-edit-and-human-edit");
     }
-    rep.nontrivial = same && a.ai_checkpoints > 0 && (did_split || between);
+    rep.nontrivial = same && a.ai_checkpoints > 0 && (did_split || between || case.dense != 0);
+    if case.dense != 0 {
+        rep.class(format!("dense-tau:{}", case.dense));
+    }
     rep
 }
 
@@ -242,8 +288,8 @@ pub fn spec() -> Spec<Case> {
     Spec {
         id: "C14",
         level: "exploration",
-        rule: "a base history H (1-4 work blocks of human/AI edits ending in commits, incl. partial commits by file and hunk) and a generated transformation tau composed of 1-6 redundant steps at generated positions - extra human checkpoints, verbatim repetition of the preceding checkpoint 1-3 times, read-only git commands through the wrapper - and of splitting multi-line agent insertions into 2-4 consecutive partial writes each followed by a checkpoint of the same session. H and tau(H) run in twin sandboxes with pinned dates (commit ids coincide); note attestation sets of every commit and `git-ai blame --json` of every file must be identical. non-trivial = AI checkpoints present and (an agent edit was split, or a step landed between an AI edit and a later human edit of the same file); distinct by case hash".into(),
-        cases_quick: 126,
+        rule: "a base history H (1-4 work blocks of human/AI edits ending in commits, incl. partial commits by file and hunk) and a generated transformation tau composed of 1-6 redundant steps at generated positions - extra human checkpoints, verbatim repetition of the preceding checkpoint 1-3 times, read-only git commands through the wrapper - and of splitting multi-line agent insertions into 2-4 consecutive partial writes each followed by a checkpoint of the same session; in half of the cases additionally a systematic transformation (an explicit human checkpoint after every human edit / every agent checkpoint repeated / a read-only command after every edit). Edits include a person throwing away everything the agents wrote in a file. H and tau(H) run in twin sandboxes with pinned dates (commit ids coincide); note attestation sets of every commit and `git-ai blame --json` of every file must be identical. non-trivial = AI checkpoints present and (an agent edit was split, or a step landed between an AI edit and a later human edit of the same file); distinct by case hash".into(),
+        cases_quick: 280,
         cases_thorough: 4000,
         shrink_iters: 50,
         workers: 14,
